@@ -73,6 +73,20 @@ Print Assumptions C01_mux_value.
 (* when the worst-case rounding drift (1+|s|_1) * 2^32/(4N) is below the gate's margin, the drift hypothesis is implied and the truth
    table follows from the output error bound alone, for every key, every admissible inputs and every mask (small-n configurations;
    for n = 630 an adversarial mask can exceed the margin, which is why C01 is partial) *)
+(* MUX as a whole (two bootstrappings, the sum under the extracted key, the key switch) *)
+Theorem C01_mux_correct_partial : forall n nx key xkey ca cb cc (a b c : bool) (N S p1 p2 d1 d2 : Z) u1 u2 e1 e2 cout e3,
+  length (fst ca) = n -> length (fst cb) = n -> length (fst cc) = n ->
+  admissible (lwe_phase key ca) a -> admissible (lwe_phase key cb) b -> admissible (lwe_phase key cc) c ->
+  0 < N -> 2 * N * S = p32 -> 0 <= p1 < 2 * N -> 0 <= p2 < 2 * N ->
+  eqm32 (p1 * S) (lwe_phase key (mux_lin1 n ca cb) + d1) -> Z.abs d1 < 268435456 ->
+  eqm32 (p2 * S) (lwe_phase key (mux_lin2 n ca cc) + d2) -> Z.abs d2 < 268435456 ->
+  length (fst u1) = nx -> length (fst u2) = nx ->
+  lwe_phase xkey u1 = (if p1 <? N then MU else - MU) + e1 -> lwe_phase xkey u2 = (if p2 <? N then MU else - MU) + e2 ->
+  lwe_phase key cout = w32 (lwe_phase xkey (mux_sum nx u1 u2) + e3) -> Z.abs (e1 + e2 + e3) < 536870912 ->
+  decrypt_bit key cout = bit_of (if a then b else c).
+Proof. exact mux_correct_partial. Qed.
+Print Assumptions C01_mux_correct_partial.
+
 Theorem C01_gate_correct_worstcase : forall g (N : nat) (S : Z) n key ca cb (a b : bool) cout e,
   (0 < N)%nat -> inDomain (2 * Z.of_nat N) -> 2 * Z.of_nat N * S = p32 ->
   length (fst ca) = n -> length (fst cb) = n ->
